@@ -2039,14 +2039,17 @@ def c20_toy(ctx):
     acc = Acc(ctx)
     cl = {
         "generate_toy/count_and_physical": "generate_toy(N) returns exactly N events (every leaf of the structure has leading length N); the final-state momenta are finite, on "
-                                           "shell (1e-9*m0) and add up to (m0,0,0,0) (2e-7*m0); the density of every returned event is finite and positive",
+                                           "shell (1e-9*m0) and add up to (m0,0,0,0) (2e-7*m0), sub-systems that are fixed-mass nodes (model: one) have their mass; the density of every returned event is finite and positive",
         "generate_toy_p/count_and_physical": "generate_toy_p(N) returns exactly N finite, on-shell, momentum-conserving events per final particle",
         "user_gen_p": "generate_toy(N, gen_p=f) / generate_toy_p(N, gen_p=f) return exactly N of the events f proposed",
     }
     for k, c in cl.items():
         acc.declare(k, c)
-    for sname, chains, Ns in (("s000", ["bc", "cd"], (1, 7, 300)), ("f4", ["cas2"], (1, 50))):
-        cfg = M.build_config(sname, chains=chains)
+    # third card: both resonances of the cascade are fixed-mass nodes (model: one) -> the phase-space proposal is a DOUBLY nested chain generator
+    # (added after seeded change C20-chain_generator_top_down_order: sub-decays must be boosted children first)
+    _ONE = {"R_BCD": {"model": "one"}, "R_BC": {"model": "one"}}
+    for sname, chains, Ns, res_over in (("s000", ["bc", "cd"], (1, 7, 300), None), ("f4", ["cas2"], (1, 50), None), ("f4", ["cas2"], (1, 7, 50), _ONE)):
+        cfg = M.build_config(sname, chains=chains, res_over=res_over)
         with _quiet():
             config, amp = M.load(ctx, cfg)
             M.set_params(amp, M.random_params(amp, ctx.seed + 20))
@@ -2058,8 +2061,8 @@ def c20_toy(ctx):
             for seed in (range(5) if N == 7 else (0,)):
                 for charge in ((False, True) if seed == 0 and N == 7 else (False,)):
                     s = 1000 * ctx.seed + 70 + seed
-                    w = {"structure": sname, "chains": chains, "N": N, "tf_seed": s, "include_charge": charge, "params_seed": ctx.seed + 20}
-                    ctx.count(key=(sname, N, seed, charge), sample=w)
+                    w = {"structure": sname, "chains": chains, "N": N, "tf_seed": s, "include_charge": charge, "params_seed": ctx.seed + 20, "res_over": res_over}
+                    ctx.count(key=(sname, N, seed, charge, bool(res_over)), sample=w)
                     tf.random.set_seed(s)
                     with _quiet():
                         data, err = _try(lambda: config.generate_toy(N, include_charge=charge))
@@ -2072,7 +2075,16 @@ def c20_toy(ctx):
                         with _quiet():
                             dens = np.asarray(amp(data))
                         ok = lens == {N} and int(D.data_shape(data)) == N and fin and shell <= TOL_DOUBLE and max(dE, dp) <= TOL_SINGLE and bool(np.all(np.isfinite(dens) & (dens > 0)))
-                        acc.add("generate_toy/count_and_physical", ok, dict(w, leaf_lengths=sorted(lens), on_shell=shell, dE=dE, dp=dp, config_dict=cfg))
+                        node = {}
+                        if res_over:
+                            # fixed-mass nodes: B C D and B C have the configured masses
+                            byname = dict(zip([n_ for n_, _ in st["finals"]], ps))
+                            for rname, content in (("R_BCD", "BCD"), ("R_BC", "BC")):
+                                tot = sum(byname[c] for c in content)
+                                mm = np.sqrt(np.abs(tot[:, 0] ** 2 - np.sum(tot[:, 1:] ** 2, axis=1)))
+                                node[rname] = float(np.max(np.abs(mm - st["res"][rname]["m0"])))
+                            ok = ok and max(node.values()) <= TOL_SINGLE * m0
+                        acc.add("generate_toy/count_and_physical", ok, dict(w, leaf_lengths=sorted(lens), on_shell=shell, dE=dE, dp=dp, fixed_node_mass_residuals=node, config_dict=cfg))
                     tf.random.set_seed(s + 1)
                     with _quiet():
                         p, err = _try(lambda: {str(k): np.asarray(v, dtype=np.float64) for k, v in config.generate_toy_p(N, include_charge=charge).items()} if not charge else
@@ -2097,7 +2109,7 @@ def c20_toy(ctx):
         for N in (1, 20):
             tf.random.set_seed(1000 * ctx.seed + 90)
             state["k"] = 0
-            ctx.count(key=(sname, "gen_p", N))
+            ctx.count(key=(sname, "gen_p", N, bool(res_over)))
             with _quiet():
                 p, err = _try(lambda: {str(k): np.asarray(v) for k, v in config.generate_toy_p(N, gen_p=gen_p).items()})
             ok = err is None and all(v.shape == (N, 4) for v in p.values())
